@@ -318,7 +318,7 @@ def _family():
     its arguments into its first samples, so a forge shows which argument an edit reached."""
     def make(params):
         src = f"def shape({', '.join(params)}, SR, npts):\n    out = np.zeros(int(npts)); out[:{len(params)}] = [{', '.join(params)}]; return out\n"
-        ns = {"np": np}
+        ns = {"np": np, "__name__": "user_shapes"}          # functions of one (user) module, as redefinitions in a notebook are
         exec(src, ns)          # noqa: S102 - fixed text above
         return ns["shape"]
     return {1: (make(["level"]), ["level"]), 2: (make(["start", "stop"]), ["start", "stop"]),
